@@ -34,14 +34,14 @@ TEXT = {
         "engine": "N",
         "design_ref": "DESIGN.md sect. 4 (C02), sect. 3.6, 3.7",
         "technique": "deterministic simulation of the whole system (as C01) driven by seeded generated test-case definitions, each from its own choice tape: loaded on its own through the real loader (panic = violation, error = legal rejection), executed by the real runner against the real reference and gRPC peers over the simulated network and fake clock; failing cases confirmed three times alone, tape-minimised across fresh processes, replayable from the replay file",
-        "level_text": "Seeded generation over the deterministic fragment of the suite schema (all five stream types, 0-4/8 requests and responses incl. more responses than requests and zero requests, headers/trailers with repeated values, mixed case and -bin values, 16 error codes with empty/UTF-8/percent-worthy messages and 0-3 details, payloads from empty to 64 KiB) x config slices rotating HTTP version, protocol, codec, compression and TLS, in server mode and client mode so that reference client, reference server and both gRPC peers are exercised. Oracle: the runner's verdict is pass for every generated permutation; loading never panics. Evidence, not proof; the deciding variable is the generated input, the simulator is the deterministic execution vehicle.",
+        "level_text": "Seeded generation over the deterministic fragment of the suite schema (all five stream types, 0-4/8 requests and responses incl. more responses than requests and zero requests, headers/trailers with repeated values, mixed case and -bin values, 16 error codes with empty/UTF-8/percent-worthy messages and 0-3 details, payloads from empty to 64 KiB) x config slices rotating HTTP version, protocol, codec, compression and TLS, in server mode and client mode so that reference client, reference server and both gRPC peers are exercised. Oracle: the runner's verdict is pass for every generated permutation; loading never panics; every run reaches its verdict within 6 simulated hours (a run that does not is reported as class hang, with the goroutines stuck in a panic or in the runner). Evidence, not proof; the deciding variable is the generated input, the simulator is the deterministic execution vehicle.",
         "level_note": "Three known findings are listed in known_findings.json (zero-request streams against the grpc-go server; request info of a full-duplex error without responses; trailing blank of an error message lost under gRPC) with input-specific signatures; every other failure is reported. Header lists use one entry per name (as the corpus does).",
     },
     "C01": {
         "engine": "N",
         "design_ref": "DESIGN.md sect. 4 (C01), sect. 3.6, 3.7",
         "technique": "deterministic simulation of the whole system: the real runner and the real reference/gRPC peers with their protocol stacks run in one process per shard over a simulated network (seeded segmentation and latency) and the testing/synctest fake clock; oracle = runner verdict, exact totals, known-failing lists; failures replayed per permutation three times",
-        "level_text": "The finite space of the property is executed: quick = every embedded suite x every (HTTP version, protocol) shard with one codec and identity + one compression rotated by the seed (about 6k permutations of the five Go-peer runs); thorough = all permutations of the five runs (12,998 server-mode + 16,580 client-mode + the three gRPC-peer runs) at two network perturbation levels, with a dry expansion proving that the shards partition each run. Timing-directed cases decide their verdict by simulated time, so the check cannot flake under load. Oracle: Run returns (true, nil), zero failed, zero could-not-run, every known-failing pattern of the gRPC peers matched and failing, reference lists empty.",
+        "level_text": "The finite space of the property is executed: quick = every embedded suite x every (HTTP version, protocol) shard with one codec and identity + one compression rotated by the seed (about 6k permutations of the five Go-peer runs); thorough = all permutations of the five runs (12,998 server-mode + 16,580 client-mode + the three gRPC-peer runs) at two network perturbation levels, with a dry expansion proving that the shards partition each run. Timing-directed cases decide their verdict by simulated time, so the check cannot flake under load. Oracle: Run returns (true, nil) within 6 simulated hours (else class hang), zero failed, zero could-not-run, every known-failing pattern of the gRPC peers matched and failing, reference lists empty.",
         "level_note": "Simulated environment, real Go scheduler inside third-party stacks (GOMAXPROCS=1): replay is exact at the level of the verdict, not of a global event log. Four environment adaptations (listed in the evidence file) change how goroutines wait / read the clock, never what the code computes. The Node gRPC-Web client run is excluded (not runnable offline).",
     },
     "C16": {
@@ -62,7 +62,7 @@ TEXT = {
         "engine": "S",
         "design_ref": "DESIGN.md sect. 4 (C09), sect. 3.4",
         "technique": "deterministic simulation with fault injection: instrumented ReadDelimitedMessage (reader goroutine + timeout select) under the seeded scheduler and fake clock over a simulated stream (seeded chunking, arrival gaps incl. exactly-at-timeout, cut at any byte, EOF/eof-with-data/I/O error/stall, io.Pipe-like zero-length reads); oracle = reference model of the frame sequence predicting result, error class, return instant and timeout progress text; codecs checked under seeded chunking and cuts; shrinking + exact replay",
-        "level_text": "Seeded exploration of message sequences x byte-stream partitions x truncation points x oversize prefixes x stall points on the current tree: the reference model walks the frames with the stream's own arrival times, so every returned message, EOF vs unexpected-EOF, oversize rejection (no further read, no allocation), timeout instant (exact on the fake clock) and the 'read k/n bytes' figures are checked on every run; binary and JSON stream codecs are checked for round trip and truncation reporting. Evidence, not proof.",
+        "level_text": "Seeded exploration of message sequences x byte-stream partitions x truncation points x oversize prefixes x stall points on the current tree: the reference model walks the frames with the stream's own arrival times, so every returned message, EOF vs unexpected-EOF, oversize rejection (no further read, no allocation), timeout instant (exact on the fake clock) and the 'read k/n bytes' figures are checked on every run; binary and JSON stream codecs are checked for round trip (into fresh targets and into one reused target) and truncation reporting. Evidence, not proof.",
         "level_note": "Trusted: simrt/simio, synctest clock. Boundary (data arrives exactly at the timeout instant): either outcome accepted. JSON messages are objects (as all protocol messages are). Second part (scenario c09-clientloop, config C09R, same command, own test binary): the real reference client request loop (run(): one stream decoder over stdin, a goroutine per request, encoder over stdout; binary and --json) reading 0-5 requests from a simulated stdin under seeded segmentation, reads that span several messages or are 1-8 bytes long, cuts at any byte and I/O errors; every completely delivered request must be answered exactly once, nothing else, and a truncated stream must be told from a clean end.",
     },
     "C04": {
@@ -90,7 +90,7 @@ TEXT = {
         "engine": "S",
         "design_ref": "DESIGN.md sect. 4 (C10), sect. 3.1-3.5",
         "technique": "deterministic simulation with fault injection: seeded schedule search over instrumented runClient/clientProcessRunner tasks against a scripted faulty client process under a fake clock; oracle = exactly-once/attribution/refusal/liveness reference rules over the recorded history; shrinking + exact tape replay",
-        "level_text": "Seeded exploration of schedules x client fault points: every run executes the real multiplexer (current tree, instrumented) with 1-3 concurrent senders against a scripted client whose answer order, latencies, stream fault (cut at any byte, duplicate, unknown, empty-name, premature, oversize, garbage) and process fate (early exit 0/non-0, stops reading, ignores EOF, kill delay) come from one tape; exactly-once, attribution, refusal-after-end, liveness flag and bounded-time return are checked on every run. A clean batch is evidence, not proof.",
+        "level_text": "Seeded exploration of schedules x client fault points: every run executes the real multiplexer (current tree, instrumented) with 1-3 concurrent senders against a scripted client whose answer order, latencies, stream fault (cut at any byte, duplicate, unknown, empty-name, premature, oversize, garbage) and process fate (early exit 0/non-0, stops reading, ignores EOF, kill delay) come from one tape; exactly-once, attribution, refusal-after-end, the liveness flag (after the process has gone, and already inside the callback that reports a fatal output failure) and bounded-time return are checked on every run. A clean batch is evidence, not proof.",
         "level_note": "Trusted: the simulator (simrt scheduler, instrumenter completeness as checked at run time), testing/synctest's fake clock, io.Pipe; OS processes/signals are stubbed by killable in-process peers. The schedule space is sampled, not enumerated.",
     },
 }
